@@ -2,7 +2,7 @@
    the absence of a Break outside of a loop, so that a pipeline of passes needs these of its INPUT only. *)
 From Coq Require Import ZArith NArith List Bool Lia.
 Import ListNotations.
-From SV Require Import Common.Int32 C02deep.Syntax C02deep.Sem C02deep.Passes C02deep.ProofsSem C02deep.ProofsScope
+From SV Require Import Common.Int32 C02.Kernels C02deep.Syntax C02deep.Sem C02deep.Passes C02deep.ProofsSem C02deep.ProofsScope
   C02deep.ProofsDceSets C02deep.ProofsDce C02deep.ProofsCcpRel C02deep.ProofsCcp C02deep.ProofsCcpFull.
 Open Scope Z_scope.
 
@@ -147,7 +147,8 @@ Proof.
     intros x Hx Hd. cbn in *. auto.
   - destruct (HQ Hpre) as (A1 & A2 & A3); [intros x Hx; apply Hi; rewrite In_use_expr; auto|].
     split; [|split].
-    + cbn [scoped_l]. rewrite scoped_SSIf, A1, !andb_true_r. eapply in_scope_tr; eauto. intros y ->. rewrite In_use_expr. auto.
+    + cbn [scoped_l]. rewrite scoped_SSIf, A1, !andb_true_r.
+      apply (in_scope_tr S S' (use_expr c sa) c Hc); [intros y ->; rewrite In_use_expr; auto | exact Hi].
     + intros x Hx Hd. cbn in *. apply Hi; auto. rewrite In_use_expr. auto.
     + cbn [binders_l]. rewrite binders_SSIf, app_nil_r. exact A3.
 Qed.
@@ -207,7 +208,7 @@ Proof.
     + apply Hlive; auto.
   - split; [|split].
     + cbn [scoped_l]. rewrite scoped_SIf, A1, B1, !andb_true_r. apply andb_true_intro. split.
-      * eapply in_scope_tr; eauto. intros y ->. rewrite In_use_expr. auto.
+      * apply (in_scope_tr S S' (use_expr c sc) c Hc); [intros y ->; rewrite In_use_expr; auto | exact Hi].
       * rewrite forallb_forall. intros t Ht. specialize (Hf t (F2 t Ht)). apply andb_prop in Hf. destruct Hf as [Hf1 Hf2].
         apply andb_true_intro. split.
         -- destruct (t_e1 t) as [| | |x] eqn:E; try reflexivity. apply in_scope_var. apply in_scope_var in Hf1.
@@ -277,7 +278,7 @@ Proof.
   split; [|split].
   - cbn [scoped_l]. rewrite scoped_SWhile, A1, !andb_true_r. apply andb_true_intro. split.
     + rewrite forallb_forall. intros t Ht. specialize (Hl1 t (Hin1 t (F2 t Ht))).
-      eapply in_scope_tr; eauto. intros y E. eapply F4; eauto.
+      apply (in_scope_tr S S' sc (t_e1 t) Hl1); [intros y E; eapply F4; eauto | exact Hi].
     + rewrite forallb_forall. intros t Ht. specialize (Hl2 t (Hin1 t (F2 t Ht))).
       destruct (t_e2 t) as [| | |x] eqn:E; try reflexivity. apply in_scope_var. apply in_scope_var in Hl2.
       apply A2; auto. unfold sa. rewrite In_use_e2s. left. exists t. auto.
@@ -326,4 +327,173 @@ Proof.
     intros x Hp Hb. apply dce_stmts_binders in Hb. eapply (NoDup_app_disj _ _ x Hnd); eauto.
   - destruct (f_ret f) as [| | |x] eqn:E; try reflexivity. apply in_scope_var. apply in_scope_var in Hret.
     apply A2; auto. unfold s0. rewrite In_use_expr. auto.
+Qed.
+
+(* no Break outside of a loop is created *)
+Lemma dce_no_break_both :
+  (forall st s, no_break st = true -> no_break_l (olist (fst (dce_stmt st s))) = true) /\
+  (forall ss s, no_break_l ss = true -> no_break_l (fst (dce_stmts ss s)) = true).
+Proof.
+  apply stmt_stmts_ind2.
+  - intros x op e1 e2 s _. cbn [dce_stmt]. destruct (_ && _); reflexivity.
+  - intros x e s _. cbn [dce_stmt]. destruct (negb _); reflexivity.
+  - intros x p e s _. cbn [dce_stmt]. destruct (negb _); reflexivity.
+  - intros f args ret s _. reflexivity.
+  - intros c s1 s2 fas H1 H2 s Hn. change (no_break (SIf c s1 s2 fas)) with (no_break_l s1 && no_break_l s2) in Hn.
+    apply andb_prop in Hn. destruct Hn as [N1 N2]. rewrite dce_SIf.
+    destruct (dce_fas fas s) as [fas' sa]. specialize (H1 sa N1). destruct (dce_stmts s1 sa) as [s1' sb].
+    specialize (H2 sb N2). destruct (dce_stmts s2 sb) as [s2' sc]. cbn [fst snd] in *.
+    destruct (_ && _); cbn [fst olist]; [reflexivity|]. cbn [no_break_l].
+    change (no_break (SIf c s1' s2' fas')) with (no_break_l s1' && no_break_l s2'). now rewrite H1, H2.
+  - intros c inv ss H s Hn. change (no_break (SSIf c inv ss)) with (no_break_l ss) in Hn. rewrite dce_SSIf.
+    specialize (H s Hn). destruct (dce_stmts ss s) as [ss' sa]. cbn [fst] in *.
+    destruct (is_nil ss'); cbn [fst olist]; [reflexivity|]. cbn [no_break_l].
+    change (no_break (SSIf c inv ss')) with (no_break_l ss'). now rewrite H.
+  - intros e s Hn. discriminate.
+  - intros lvs ss bc _ s _. rewrite dce_SWhile. cbn zeta. destruct (dce_stmts ss _) as [ss' sb].
+    destruct (dce_lvs _ sb) as [lvs2 sc]. reflexivity.
+  - reflexivity.
+  - intros st r Hs Hr s Hn. cbn in Hn. apply andb_prop in Hn. destruct Hn as [N1 N2]. cbn [dce_stmts].
+    specialize (Hr s N2). destruct (dce_stmts r s) as [r' s1]. specialize (Hs s1 N1).
+    destruct (dce_stmt st s1) as [o s2]. cbn [fst] in *. destruct o as [st'|]; cbn in *; [|exact Hr].
+    rewrite andb_true_r in Hs. now rewrite Hs, Hr.
+Qed.
+Lemma dce_no_break f : no_break_l (f_body f) = true -> no_break_l (f_body (dce f)) = true.
+Proof. intros H. unfold dce. cbn [f_body]. now apply dce_no_break_both. Qed.
+
+(* ======================================================================== constant propagation *)
+Lemma no_break_l_app a b : no_break_l (a ++ b) = no_break_l a && no_break_l b.
+Proof. induction a as [|s r IH]; cbn; [reflexivity|]. now rewrite IH, andb_assoc. Qed.
+
+Lemma ccp_bound_nb x e c out c' b f : ccp_bound x e c = Some (out, c', b, f) -> no_break_l out = true.
+Proof. unfold ccp_bound. destruct (bind x e c); [intros [= <- _ _ _]; reflexivity | discriminate]. Qed.
+Lemma ccp_bin_rest_nb x op e1 e2 c out c' b f : ccp_bin_rest x op e1 e2 c = Some (out, c', b, f) -> no_break_l out = true.
+Proof.
+  unfold ccp_bin_rest. intros H.
+  destruct (match e1, e2 with
+            | EVar a, EVar b0 => if N.eqb a b0 then match op with MINUS | MOD => Some (EInt 0) | DIV => Some (EInt 1) | _ => None end else None
+            | _, _ => None end); [eapply ccp_bound_nb; eauto|].
+  destruct (flex_unwrapped op e1 e2) as [[op' a'] b'].
+  destruct a' as [| | |v1]; try (injection H as <- _ _ _; reflexivity).
+  destruct b' as [c2| | |]; try (injection H as <- _ _ _; reflexivity).
+  destruct (assoc v1 (cx_b c)) as [[[iop iv] ic]|]; [destruct (merge_binop op' iop ic (wrap32 c2)) as [[mop mc]|]|];
+    injection H as <- _ _ _; reflexivity.
+Qed.
+Lemma ccp_bin_nb x op e1 e2 c out c' b f : ccp_bin x op e1 e2 c = Some (out, c', b, f) -> no_break_l out = true.
+Proof.
+  unfold ccp_bin. intros H.
+  repeat match type of H with
+         | match ?x with _ => _ end = _ => destruct x
+         | (if ?x then _ else _) = _ => destruct x
+         end;
+    first [apply ccp_bound_nb in H | apply ccp_bin_rest_nb in H]; exact H.
+Qed.
+
+Lemma try_loop_nb stmts body bc c : forall d l o c' b f,
+  try_loop ver_now stmts d l body bc c = Some (o, c', b, f) -> no_break_l o = true.
+Proof.
+  induction d as [|d IHd]; intros l o c' b f Et; cbn [try_loop] in Et;
+    destruct (bind_inits l c) as [cA|]; try discriminate;
+    destruct (stmts body cA) as [[[[oA cB] bA] fA]|]; try discriminate;
+    destruct (split_last oA) as [[restA last]|].
+  1, 3: cbn [v_guard ver_now andb] in Et; destruct (no_break_l restA) eqn:En; cbn [negb] in Et; rewrite ?orb_true_r, ?orb_false_r in Et;
+        [|injection Et as <- _ _ _; reflexivity];
+        destruct (negb (is_break last)); [injection Et as <- _ _ _; reflexivity|];
+        destruct last; try discriminate; destruct bc as [bn|];
+        [destruct (bind bn _ c); [|discriminate]|]; injection Et as <- _ _ _; exact En.
+  - injection Et as <- _ _ _; reflexivity.
+  - destruct (try_loop ver_now stmts d _ body bc c) as [[[[o' c2'] b2'] f2']|] eqn:Et2; [|discriminate].
+    injection Et as <- _ _ _. eapply IHd; eauto.
+Qed.
+
+Lemma ccp_out_nb n : forall st c out c' b f,
+  no_break st = true -> ccp_stmt ver_now n st c = Some (out, c', b, f) -> no_break_l out = true.
+Proof.
+  induction n as [|n IH]; intros st c out c' b f Hnb H; [discriminate|].
+  assert (HG : forall ss c out c' b f, no_break_l ss = true -> ccp_stmts ver_now n ss c = Some (out, c', b, f) -> no_break_l out = true).
+  { induction ss as [|s r IHr]; intros c0 out0 c0' b0 f0 Hn0 H0; unfold ccp_stmts in H0; cbn [ccp_go] in H0.
+    - injection H0 as <- _ _ _. reflexivity.
+    - cbn in Hn0. apply andb_prop in Hn0. destruct Hn0 as [Hn1 Hn2].
+      destruct (ccp_stmt ver_now n s c0) as [[[[o1 c1] b1] f1]|] eqn:E1; [|discriminate].
+      pose proof (IH _ _ _ _ _ _ Hn1 E1) as N1. destruct b1; [injection H0 as <- _ _ _; exact N1|].
+      destruct (ccp_go (ccp_stmt ver_now n) r c1) as [[[[o2 c2] b2] f2]|] eqn:E2; [|discriminate].
+      injection H0 as <- _ _ _. rewrite no_break_l_app, N1. eapply IHr; eauto. }
+  destruct st; cbn [ccp_stmt] in H; fold (ccp_stmts ver_now n) in H.
+  - exact (ccp_bin_nb _ _ _ _ _ _ _ _ _ H).
+  - destruct (lit _); [destruct (bind _ _ _)|]; try discriminate; injection H as <- _ _ _; reflexivity.
+  - injection H as <- _ _ _; reflexivity.
+  - injection H as <- _ _ _; reflexivity.
+  - change (no_break (SIf c0 s1 s2 fas)) with (no_break_l s1 && no_break_l s2) in Hnb.
+    apply andb_prop in Hnb. destruct Hnb as [Hn1 Hn2].
+    destruct (lit (opt_expr (cx_v c) c0)) as [v|].
+    + destruct (ccp_stmts ver_now n _ c) as [[[[o1 c1] b1] f1]|] eqn:E1; [|discriminate].
+      assert (N1 : no_break_l o1 = true) by (eapply HG; [|exact E1]; destruct (negb (v =? 0)); assumption).
+      destruct b1; [injection H as <- _ _ _; exact N1|].
+      destruct (bind_fas _ _ _); [injection H as <- _ _ _; exact N1 | discriminate].
+    + assert (GEN' : match ccp_stmts ver_now n s1 c with
+                     | None => None
+                     | Some (o1, c1, _, f1) =>
+                         match ccp_stmts ver_now n s2 c with
+                         | None => None
+                         | Some (o2, c2, _, f2) =>
+                             match merge_fas fas (map (fun t => opt_expr (cx_v c1) (t_e1 t)) fas)
+                                             (map (fun t => opt_expr (cx_v c2) (t_e2 t)) fas) c with
+                             | None => None
+                             | Some (fas', c'0) =>
+                                 Some (if is_nil o1 && is_nil o2 && is_nil fas' then [] else [SIf (opt_expr (cx_v c) c0) o1 o2 fas'],
+                                       c'0, false,
+                                       orf (orf f1 f2) (if dead_final_assignments o1 o2 fas then fl_unproved else fl0))
+                             end
+                         end
+                     end = Some (out, c', b, f) -> no_break_l out = true).
+      { intros HX. destruct (ccp_stmts ver_now n s1 c) as [[[[o1 c1] b1] f1]|] eqn:E1; [|discriminate].
+        destruct (ccp_stmts ver_now n s2 c) as [[[[o2 c2] b2] f2]|] eqn:E2; [|discriminate].
+        destruct (merge_fas _ _ _ c) as [[fas' c0']|]; [|discriminate]. injection HX as <- _ _ _.
+        destruct (_ && _); [reflexivity|]. cbn [no_break_l].
+        change (no_break (SIf (opt_expr (cx_v c) c0) o1 o2 fas')) with (no_break_l o1 && no_break_l o2).
+        now rewrite (HG _ _ _ _ _ _ Hn1 E1), (HG _ _ _ _ _ _ Hn2 E2). }
+      destruct s1 as [|a1 r1]; [|exact (GEN' H)].
+      destruct s2 as [|a2 r2]; [|exact (GEN' H)].
+      destruct fas as [|t [|t2 r]]; [exact (GEN' H)| |exact (GEN' H)].
+      destruct (is_lit (t_e1 t) 1 && is_lit (t_e2 t) 0).
+      * destruct (bind (t_name t) _ c); [injection H as <- _ _ _; reflexivity | discriminate].
+      * destruct (is_lit (t_e1 t) 0 && is_lit (t_e2 t) 1); [injection H as <- _ _ _; reflexivity | exact (GEN' H)].
+  - change (no_break (SSIf c0 inv ss)) with (no_break_l ss) in Hnb. destruct (lit _) as [v|].
+    + destruct (negb _); [exact (HG _ _ _ _ _ _ Hnb H) | injection H as <- _ _ _; reflexivity].
+    + destruct (ccp_stmts ver_now n ss c) as [[[[o1 c1] b1] f1]|] eqn:E1; [|discriminate]. injection H as <- _ _ _.
+      destruct (is_nil o1); [reflexivity|]. cbn [no_break_l].
+      change (no_break (SSIf (opt_expr (cx_v c) c0) inv o1)) with (no_break_l o1). now rewrite (HG _ _ _ _ _ _ Hnb E1).
+  - discriminate.
+  - destruct (elim_lvs ver_now lvs c) as [[[K c1] f0]|]; [|discriminate].
+    destruct (ccp_stmts ver_now n ss c1) as [[[[body c_in] bb] f1]|] eqn:Eb; [|discriminate].
+    destruct (match split_last body with
+              | Some (rest, SBreak e) => if v_guard ver_now && negb (no_break_l rest) then None else Some (rest, e)
+              | _ => None end) as [[rest e]|] eqn:Eonce.
+    + assert (Hnr : no_break_l rest = true).
+      { destruct (split_last body) as [[r l]|]; [|discriminate]. destruct l; try discriminate.
+        cbn [v_guard ver_now andb] in Eonce. destruct (no_break_l r) eqn:En; [|discriminate]. injection Eonce as <- _. exact En. }
+      destruct (bind_inits _ c1) as [c2|]; [|discriminate].
+      destruct (ccp_stmts ver_now n rest c2) as [[[[o c3] b3] f2]|] eqn:Er; [|discriminate].
+      destruct bc as [bn|]; [destruct (bind bn _ c3); [|discriminate]|]; injection H as <- _ _ _; exact (HG _ _ _ _ _ _ Hnr Er).
+    + destruct (try_loop ver_now (ccp_stmts ver_now n) 5 _ body bc c1) as [[[[o c2] b2] f2]|] eqn:Et; [|discriminate].
+      injection H as <- _ _ _. exact (try_loop_nb _ _ _ _ _ _ _ _ _ _ Et).
+Qed.
+
+Lemma ccps_out_nb n : forall ss c out c' b f,
+  no_break_l ss = true -> ccp_stmts ver_now n ss c = Some (out, c', b, f) -> no_break_l out = true.
+Proof.
+  induction ss as [|s r IHr]; intros c0 out0 c0' b0 f0 Hn0 H0; unfold ccp_stmts in H0; cbn [ccp_go] in H0.
+  - injection H0 as <- _ _ _. reflexivity.
+  - cbn in Hn0. apply andb_prop in Hn0. destruct Hn0 as [Hn1 Hn2].
+    destruct (ccp_stmt ver_now n s c0) as [[[[o1 c1] b1] f1]|] eqn:E1; [|discriminate].
+    pose proof (ccp_out_nb _ _ _ _ _ _ _ Hn1 E1) as N1. destruct b1; [injection H0 as <- _ _ _; exact N1|].
+    destruct (ccp_go (ccp_stmt ver_now n) r c1) as [[[[o2 c2] b2] f2]|] eqn:E2; [|discriminate].
+    injection H0 as <- _ _ _. rewrite no_break_l_app, N1. eapply IHr; eauto.
+Qed.
+
+Lemma ccp_no_break f f' fl : no_break_l (f_body f) = true -> ccp f = Some (f', fl) -> no_break_l (f_body f') = true.
+Proof.
+  unfold ccp, ccp_gen. intros Hn H.
+  destruct (ccp_stmts ver_now ccp_fuel (f_body f) cx0) as [[[[out c] b] f1]|] eqn:E; [|discriminate].
+  injection H as <- _. cbn [f_body]. exact (ccps_out_nb _ _ _ _ _ _ _ Hn E).
 Qed.
